@@ -218,12 +218,21 @@ def discharge(ob, use_cvc5=True, z3_ms=None, cvc5_ms=None):
     if c is True:
         ob.status, ob.solver, ob.ms = "proved", "trivial", 0.0
         return ob
-    s = z3.Solver()
-    s.set("timeout", z3_ms)
-    s.set("random_seed", 7)
-    s.add(*ob.pc)
-    s.add(z3.Not(f))
-    r = s.check()
+    defs = getattr(ob, "defs", None) or []
+    # stage 1: definitions of named products abstracted away (congruence + sign facts suffice for most VCs and the
+    # query stays linear); unsat there is a proof.  stage 2: full definitions.
+    r = None
+    for stage in ((1, 2) if defs else (2,)):
+        s = z3.Solver()
+        s.set("timeout", z3_ms if stage == 2 else min(z3_ms, 4000))
+        s.set("random_seed", 7)
+        s.add(*ob.pc)
+        if stage == 2:
+            s.add(*defs)
+        s.add(z3.Not(f))
+        r = s.check()
+        if r == z3.unsat:
+            break
     ob.ms = (time.time() - t0) * 1000
     if r == z3.unsat:
         ob.status, ob.solver = "proved", "z3"
